@@ -20,12 +20,16 @@ import (
 )
 
 var callNameRe = regexp.MustCompile(`call\[([^\]]+)\]`)
+var outparamRe = regexp.MustCompile(`outparam\[([^\]]+)\]`)
 
 func vocabOf(wants ...string) map[string]bool {
 	m := map[string]bool{}
 	for _, w := range wants {
 		for _, mm := range callNameRe.FindAllStringSubmatch(w, -1) {
 			m[mm[1]] = true
+		}
+		for _, mm := range outparamRe.FindAllStringSubmatch(w, -1) {
+			m["outparam["+mm[1]+"]"] = true
 		}
 	}
 	return m
@@ -54,7 +58,9 @@ func opaqueParts(t *Term, allow map[string]bool) []string {
 		var why string
 		switch x.Op {
 		case "unknown", "outparam", "closurewrite", "rec", "any", "freevar", "select":
-			why = x.Op + "[" + x.Name + "]"
+			if !(x.Op == "outparam" && allow["outparam["+x.Name+"]"]) {
+				why = x.Op + "[" + x.Name + "]"
+			}
 		case "call":
 			if x.Name == "?" {
 				why = "dynamic call"
